@@ -1423,6 +1423,251 @@ fn run_projections(r: &mut Runner, rng: &mut Rng, thorough: bool, out: &mut Out)
     }
 }
 
+// ------------------------------------------------------------------------------------------- statements
+
+fn sx(h: &str, mut items: Vec<Sx>) -> Sx {
+    let mut l = vec![atom(h)];
+    l.append(&mut items);
+    list(l)
+}
+fn block(ss: Vec<Sx>) -> Sx {
+    sx("block", ss)
+}
+fn dash() -> Sx {
+    atom("-")
+}
+
+/// a random statement; `next` = number of variables declared so far (ids `0..next` exist, some may be out of scope)
+fn random_stmt(rng: &mut Rng, env: &EnvX, depth: u32, next: &mut usize) -> Sx {
+    let e = |rng: &mut Rng, next: usize| -> Sx {
+        let x = random_expr_x(rng, env, 1);
+        // sometimes mention a variable declared in the body (possibly out of scope / not yet declared)
+        if rng.chance(1, 3) { var(rng.below(next as u64 + 1) as usize) } else { x }
+    };
+    let k = if depth == 0 { rng.below(6) } else { rng.below(16) };
+    match k {
+        0 | 1 => s_expr(e(rng, *next)),
+        2 => {
+            let t = *rng.pick(&env.base.vars);
+            let init = match rng.below(4) {
+                0 => None,
+                1 => Some(agg((0..rng.below(4)).map(|_| e(rng, *next)).collect())),
+                _ => Some(e(rng, *next)),
+            };
+            *next += 1;
+            s_decl(Ty { mods: Mods(t.mods.0 & 1), layer: t.layer }, init)
+        }
+        3 => {
+            if rng.chance(1, 3) { sx("ret", vec![]) } else { s_ret(e(rng, *next)) }
+        }
+        4 => sx(*rng.pick(&["break", "continue", "discard", "empty"]), vec![]),
+        5 => s_expr(bin("Assignment", var(rng.below(*next as u64 + 1) as usize), e(rng, *next))),
+        6 | 7 => {
+            let n = rng.below(4);
+            block((0..n).map(|_| random_stmt(rng, env, depth - 1, next)).collect())
+        }
+        8 => sx("if", vec![e(rng, *next), random_stmt(rng, env, depth - 1, next)]),
+        9 => {
+            let c = e(rng, *next);
+            let a = random_stmt(rng, env, depth - 1, next);
+            let b = random_stmt(rng, env, depth - 1, next);
+            sx("ifelse", vec![c, a, b])
+        }
+        10 | 11 => {
+            let fi = match rng.below(3) {
+                0 => dash(),
+                1 => sx("fexpr", vec![e(rng, *next)]),
+                _ => {
+                    let init = e(rng, *next);
+                    *next += 1;
+                    sx("fdecl", vec![atom(&show_ty(plain(Layer::Scalar(S_INT)))), init])
+                }
+            };
+            let c = if rng.chance(1, 4) { dash() } else { e(rng, *next) };
+            let n = if rng.chance(1, 4) { dash() } else { e(rng, *next) };
+            let b = random_stmt(rng, env, depth - 1, next);
+            sx("for", vec![fi, c, n, b])
+        }
+        12 => sx("while", vec![e(rng, *next), random_stmt(rng, env, depth - 1, next)]),
+        13 => {
+            let b = random_stmt(rng, env, depth - 1, next);
+            sx("do", vec![b, e(rng, *next)])
+        }
+        _ => {
+            let c = e(rng, *next);
+            let a = random_stmt(rng, env, depth - 1, next);
+            let b = random_stmt(rng, env, depth - 1, next);
+            sx("switch", vec![c, block(vec![sx("case", vec![lit("IntLiteral"), a]), sx("default", vec![b])])])
+        }
+    }
+}
+
+fn run_statements(r: &mut Runner, rng: &mut Rng, thorough: bool, n_random: u64, out: &mut Out) {
+    let env0 = base_envx(None);
+    let nv = env0.base.vars.len();
+    let mut operands: Vec<Sx> = (0..nv).map(var).collect();
+    operands.extend(LITS.iter().map(|k| lit(k)));
+    let f = plain(Layer::Scalar(S_FLOAT));
+    let i = plain(Layer::Scalar(S_INT));
+    let f2 = plain(Layer::Vector(S_FLOAT, 2));
+    let f3 = plain(Layer::Vector(S_FLOAT, 3));
+    let i3 = plain(Layer::Vector(S_INT, 3));
+    let m22 = plain(Layer::Matrix(S_FLOAT, 2, 2));
+    let s0 = plain(Layer::Other(0));
+    let s1 = plain(Layer::Other(1));
+    let a3 = plain(Layer::Other(3));
+    let ca3 = plain(Layer::Other(4));
+    let as0 = plain(Layer::Other(5));
+    let af3 = plain(Layer::Other(6));
+    let decl_types = [f, i, plain(Layer::Scalar(S_BOOL)), f2, f3, i3, m22, s0, s1, a3, ca3, as0, af3, cst(f), cst(f3), cst(s0)];
+    let mut k = rng.below(3);
+    // (s1) definitions: every type with every operand as the initialiser, and without one
+    for t in &decl_types {
+        r.progx_case(&env0, &body1(s_decl(*t, None)), "any", out);
+        for x in &operands {
+            k += 1;
+            if thorough || k % 2 == 0 {
+                r.progx_case(&env0, &body1(s_decl(*t, Some(x.clone()))), "any", out);
+            }
+        }
+    }
+    // aggregate initialisers: right and wrong counts, nesting, wrong item types, no flattening
+    let one = || lit("IntLiteral");
+    let fl = || lit("Float32");
+    let items: Vec<Sx> = vec![one(), fl(), var(4), var(1), var(0), var(6), var(8), var(14), var(16), var(11), agg(vec![one()]), agg(vec![agg(vec![fl()])]),
+                              agg(vec![one(), one()]), agg(vec![one(), one(), one()]), agg(vec![])];
+    for t in &decl_types {
+        for n in 0..5usize {
+            // n copies of each item kind
+            for it in &items {
+                k += 1;
+                if thorough || k % 3 == 0 || n <= 1 {
+                    r.progx_case(&env0, &body1(s_decl(*t, Some(agg(vec![it.clone(); n])))), "any", out);
+                }
+            }
+        }
+    }
+    let shaped: Vec<(Ty, Sx)> = vec![
+        (s0, agg(vec![one(), var(6), var(16)])),                                                       // array member from a float[3]: wrong
+        (s0, agg(vec![one(), var(6), agg(vec![fl(), fl()])])),
+        (s0, agg(vec![one(), agg(vec![fl(), fl(), fl()]), agg(vec![fl(), fl()])])),
+        (s0, agg(vec![one(), agg(vec![fl(), fl()]), agg(vec![fl(), fl()])])),                          // vector member: wrong count
+        (s0, agg(vec![one(), fl(), fl(), fl(), fl(), fl()])),                                          // flattened: refused
+        (s0, agg(vec![var(14), var(6), agg(vec![fl(), fl()])])),                                       // struct for an int
+        (s1, agg(vec![var(14), var(11), one()])),
+        (s1, agg(vec![agg(vec![one(), var(6), agg(vec![fl(), fl()])]), var(11), var(2)])),
+        (s1, agg(vec![agg(vec![one(), var(6), agg(vec![fl(), fl()])]), agg(vec![one(), one(), one(), one()]), var(2)])),   // matrix member from {..}: refused
+        (as0, agg(vec![var(14), var(14)])),
+        (as0, agg(vec![var(14), agg(vec![one(), var(6), agg(vec![fl(), fl()])])])),
+        (as0, agg(vec![var(14)])),
+        (af3, agg(vec![var(6), agg(vec![one(), one(), one()])])),
+        (af3, agg(vec![var(6), var(7)])),
+        (af3, agg(vec![var(6), var(8)])),
+        (f3, agg(vec![var(8), one()])),                                                                // float3 v = { v2, 1 }: no flattening
+        (f3, agg(vec![one(), agg(vec![one()]), agg(vec![agg(vec![fl()])])])),
+        (f3, agg(vec![var(4), var(1), var(0)])),
+        (f3, agg(vec![var(4), var(1), var(14)])),
+        (m22, agg(vec![one(), one(), one(), one()])),
+        (m22, agg(vec![var(8), var(8)])),
+        (cst(f3), agg(vec![one(), one(), one()])),
+        (ca3, agg(vec![one(), fl(), var(1)])),
+        (f, agg(vec![agg(vec![agg(vec![var(1)])])])),
+        (f, agg(vec![var(14)])),
+        (i, agg(vec![fl(), fl()])),
+    ];
+    for (t, ini) in shaped {
+        r.progx_case(&env0, &body1(s_decl(t, Some(ini))), "any", out);
+    }
+    // (s2) conditions: every operand as the condition of every statement kind (no conversion is inserted)
+    for x in &operands {
+        let st = s_expr(bin("Assignment", var(1), lit("IntLiteral")));
+        r.progx_case(&env0, &body1(sx("if", vec![x.clone(), st.clone()])), "any", out);
+        k += 1;
+        if thorough || k % 2 == 0 {
+            r.progx_case(&env0, &body1(sx("ifelse", vec![x.clone(), st.clone(), block(vec![st.clone()])])), "any", out);
+            r.progx_case(&env0, &body1(sx("while", vec![x.clone(), block(vec![st.clone(), sx("break", vec![])])])), "any", out);
+            r.progx_case(&env0, &body1(sx("do", vec![st.clone(), x.clone()])), "any", out);
+            r.progx_case(&env0, &body1(sx("for", vec![dash(), x.clone(), x.clone(), st.clone()])), "any", out);
+            r.progx_case(
+                &env0,
+                &body1(sx("switch", vec![x.clone(), block(vec![sx("case", vec![lit("IntLiteral"), sx("break", vec![])]), sx("default", vec![sx("break", vec![])])])])),
+                "any",
+                out,
+            );
+        }
+    }
+    // ill-typed conditions are still rejected for what is wrong inside them
+    let bad = bin("Assignment", var(20), lit("IntLiteral"));
+    for h in ["if", "while", "switch"] {
+        r.progx_case(&env0, &body1(sx(h, vec![bad.clone(), block(vec![])])), "reject", out);
+    }
+    r.progx_case(&env0, &body1(sx("do", vec![block(vec![]), bad.clone()])), "reject", out);
+    r.progx_case(&env0, &body1(sx("for", vec![sx("fexpr", vec![bad.clone()]), dash(), dash(), block(vec![])])), "reject", out);
+    r.progx_case(&env0, &body1(sx("for", vec![dash(), bad.clone(), dash(), block(vec![])])), "reject", out);
+    r.progx_case(&env0, &body1(sx("for", vec![dash(), dash(), bad.clone(), block(vec![])])), "reject", out);
+    r.progx_case(&env0, &body1(sx("for", vec![dash(), dash(), dash(), s_expr(bad.clone())])), "reject", out);
+    r.progx_case(&env0, &body1(sx("if", vec![var(0), block(vec![sx("while", vec![var(0), s_expr(bad.clone())])])])), "reject", out);
+    // (s3) scopes: a variable declared in a block / body / for-init is unknown after it; visible inside
+    let d = |t: Ty, e: Sx| s_decl(t, Some(e));
+    let use_ = |n: usize| s_expr(bin("Assignment", var(n), lit("IntLiteral")));
+    let scopes: Vec<(&str, Vec<Sx>)> = vec![
+        ("accept", vec![d(i, one()), use_(nv)]),
+        ("accept", vec![block(vec![d(i, one()), use_(nv)])]),
+        ("reject", vec![block(vec![d(i, one())]), use_(nv)]),
+        ("reject", vec![use_(nv), d(i, one())]),
+        ("reject", vec![d(i, var(nv))]),
+        ("accept", vec![d(i, one()), d(f, var(nv)), use_(nv + 1)]),
+        ("accept", vec![sx("if", vec![var(0), block(vec![d(i, one()), use_(nv)])])]),
+        ("reject", vec![sx("if", vec![var(0), block(vec![d(i, one())])]), use_(nv)]),
+        ("reject", vec![sx("if", vec![var(0), d(i, one())]), use_(nv)]),
+        ("reject", vec![sx("ifelse", vec![var(0), block(vec![d(i, one())]), block(vec![use_(nv)])])]),
+        ("accept", vec![sx("ifelse", vec![var(0), block(vec![d(i, one())]), block(vec![d(f, fl()), use_(nv + 1)])])]),
+        ("accept", vec![sx("for", vec![sx("fdecl", vec![atom(&show_ty(i)), one()]), bin("LessThan", var(nv), one()), un("PrefixIncrement", var(nv)), use_(nv)])]),
+        ("reject", vec![sx("for", vec![sx("fdecl", vec![atom(&show_ty(i)), one()]), dash(), dash(), block(vec![])]), use_(nv)]),
+        ("accept", vec![sx("for", vec![sx("fdecl", vec![atom(&show_ty(i)), one()]), dash(), dash(), block(vec![d(f, var(nv)), use_(nv + 1)])])]),
+        ("reject", vec![sx("for", vec![dash(), dash(), dash(), block(vec![d(f, fl())])]), use_(nv)]),
+        ("accept", vec![sx("while", vec![var(0), block(vec![d(i, one()), use_(nv), sx("break", vec![])])])]),
+        ("reject", vec![sx("do", vec![block(vec![d(i, one())]), bin("LessThan", var(nv), one())])]),
+        ("accept", vec![d(i, one()), sx("do", vec![block(vec![d(f, fl())]), bin("LessThan", var(nv), one())])]),
+        ("accept", vec![sx("switch", vec![var(1), block(vec![sx("case", vec![one(), d(i, one())]), use_(nv), sx("default", vec![sx("break", vec![])])])])]),
+        ("reject", vec![sx("switch", vec![var(1), block(vec![sx("case", vec![one(), d(i, one())])])]), use_(nv)]),
+        ("accept", vec![block(vec![block(vec![d(i, one())]), d(f, fl()), use_(nv + 1)])]),
+        ("reject", vec![block(vec![block(vec![d(i, one())]), d(f, fl()), use_(nv)])]),
+    ];
+    for (expect, ss) in scopes {
+        r.progx_case(&env0, &block(ss), expect, out);
+    }
+    // (s4) returns at every nesting depth in void and non-void functions
+    for ret in [None, Some(f), Some(f3), Some(s0), Some(cst(f))] {
+        let env = base_envx(ret);
+        for x in [None, Some(var(4)), Some(var(1)), Some(var(6)), Some(var(14)), Some(lit("IntLiteral")), Some(icall("AllMemoryBarrier", vec![])), Some(var(11))] {
+            let rs = match &x {
+                None => sx("ret", vec![]),
+                Some(e) => s_ret(e.clone()),
+            };
+            r.progx_case(&env, &body1(rs.clone()), "any", out);
+            r.progx_case(&env, &body1(sx("if", vec![var(0), rs.clone()])), "any", out);
+            r.progx_case(&env, &body1(sx("for", vec![dash(), dash(), dash(), block(vec![sx("ifelse", vec![var(0), sx("break", vec![]), rs.clone()])])])), "any", out);
+            r.progx_case(&env, &body1(sx("switch", vec![var(1), block(vec![sx("case", vec![lit("IntLiteral"), rs.clone()]), sx("default", vec![rs.clone()])])])), "any", out);
+            r.progx_case(&env, &block(vec![sx("while", vec![var(0), sx("do", vec![block(vec![rs.clone()]), var(0)])]), rs]), "any", out);
+        }
+    }
+    // case labels
+    for c in [lit("IntLiteral"), lit("UInt32"), lit("Bool"), lit("Float32"), var(1), bin("Add", lit("IntLiteral"), lit("IntLiteral"))] {
+        r.progx_case(&env0, &body1(sx("switch", vec![var(1), block(vec![sx("case", vec![c, sx("break", vec![])])])])), "any", out);
+    }
+    // (s5) random statement trees
+    let envs: Vec<EnvX> = vec![base_envx(None), base_envx(Some(f)), base_envx(Some(f3))];
+    for j in 0..n_random {
+        let env = &envs[(j % envs.len() as u64) as usize];
+        let mut next = nv;
+        let n = 1 + rng.below(4);
+        let depth = 1 + rng.below(3) as u32;
+        let ss: Vec<Sx> = (0..n).map(|_| random_stmt(rng, env, depth, &mut next)).collect();
+        r.progx_case(env, &block(ss), "any", out);
+    }
+}
+
 pub fn run_ext(r: &mut Runner, rng: &mut Rng, args: &Args, out: &mut Out) {
     let thorough = args.thorough();
     let env0 = base_envx(None);
@@ -1607,7 +1852,8 @@ pub fn run_ext(r: &mut Runner, rng: &mut Rng, args: &Args, out: &mut Out) {
         };
         r.progx_case(env, &body1(stmt), "any", out);
     }
-    let _ = (s_decl, agg);
+    // (x6b) statements: definitions and aggregate initialisers, conditions, scopes, returns, random statement trees
+    run_statements(r, rng, thorough, if thorough { 12000 } else { 1200 }, out);
 
     // (x7) the typed expressions the real checker produced, re-typed node by node with the real get_type
     let typed = std::mem::take(&mut r.typed);
